@@ -24,6 +24,8 @@ def run(ctx: core.Ctx) -> None:
     n = 160 if ctx.quick else 2000
     raws = sc.trace_runs(ctx, sc.gen_configs(ctx.seed, n, 100 if ctx.quick else 400), "C01", want_resid=False, want_rf=False)
     ctx.extra["repo_tests"] = sc.repo_test_traces(ctx, "C01", ["tests/flow/test_reservoir.py", "tests/forecast/test_forecast.py", "tests/test_plots.py"], False)
+    if not ctx.quick:   # the documentation notebooks, cell by cell (those that need the network stop at that cell)
+        ctx.extra["notebooks"] = sc.repo_test_traces(ctx, "C01", sc.NOTEBOOKS, False, module="bbv.drivers.notebooks")
     ctx.extra["worst_undershoot_of_window"] = min(r["min_rel"] for r in raws) if raws else None
     ctx.extra["worst_overshoot_of_window"] = max(r["max_rel"] for r in raws) - 1 if raws else None
     ctx.extra["levels_logged"] = sum(r["levels_logged"] for r in raws)
